@@ -58,13 +58,13 @@ where
 macro_rules! counter_impl {
     ($($t:ty),*) => {
         $(impl Counter for $t {
-            #[cfg(all(cryptocorrosion_verif, have_h2))]
+            #[cfg(cryptocorrosion_verif)]
             fn verif_get(&self) -> u128 { self.verif_counter() }
-            #[cfg(all(cryptocorrosion_verif, have_h2))]
+            #[cfg(cryptocorrosion_verif)]
             fn verif_set(&mut self, v: u128) { self.verif_set_counter(v) }
-            #[cfg(not(all(cryptocorrosion_verif, have_h2)))]
+            #[cfg(not(cryptocorrosion_verif))]
             fn verif_get(&self) -> u128 { 0 }
-            #[cfg(not(all(cryptocorrosion_verif, have_h2)))]
+            #[cfg(not(cryptocorrosion_verif))]
             fn verif_set(&mut self, _v: u128) {}
         })*
     };
